@@ -10,16 +10,18 @@ package main
 //   - it is compiled into the run directory (SeedGen.v) and every case is
 //     evaluated against it as well as against Seed.v, so that after a refactoring
 //     that changes the text the two are still compared on the generated cases.
+// Expressions and assignments are translated by the shared package
+// harness/internal/gotr (dialect: shl64 / shr64 of Seed.v; bip39checksum, wordMap and
+// the word list through hooks); this file adds the control skeleton of the two
+// functions (the two loops, the word slice, the three error returns).
 // Every Go assignment becomes a shadowing `let`, so statement order is kept.
 // Anything outside the subset makes the translation fail with a message; the
 // check then falls back to the hand-written model alone and says so in its notes.
 
 import (
-	"bytes"
 	"fmt"
 	"go/ast"
 	"go/parser"
-	"go/printer"
 	gotoken "go/token"
 	"go/types"
 	"os"
@@ -27,50 +29,53 @@ import (
 	"path/filepath"
 	"regexp"
 	"strings"
+
+	"verif/harness/internal/gotr"
 )
 
 type trans struct {
 	fset *gotoken.FileSet
+	g    *gotr.Tr
 }
 
-type unsupported struct{ msg string }
+type unsupported = gotr.Unsupported
 
-func (t *trans) fail(n ast.Node, format string, a ...any) {
-	pos := ""
-	if n != nil {
-		pos = t.fset.Position(n.Pos()).String() + ": "
+func newTrans(fset *gotoken.FileSet) *trans {
+	t := &trans{fset: fset, g: gotr.New(fset)}
+	t.g.Dialect = gotr.Dialect{
+		Shl: func(a, k string, bits int) string { return "shl64 " + a + " " + k },
+		Shr: func(a, k string, bits int) string { return "shr64 " + a + " " + k },
 	}
-	panic(unsupported{pos + fmt.Sprintf(format, a...)})
-}
-
-func (t *trans) src(n ast.Node) string {
-	var b bytes.Buffer
-	printer.Fprint(&b, t.fset, n)
-	return b.String()
-}
-
-func atom(s string) string {
-	if strings.ContainsAny(s, " ") && !(strings.HasPrefix(s, "(") && strings.HasSuffix(s, ")") && balanced(s[1:len(s)-1])) {
-		return "(" + s + ")"
+	t.g.CallHook = func(g *gotr.Tr, c *ast.CallExpr, want gotr.Type) (string, gotr.Type, bool) {
+		if types.ExprString(c) == "bip39checksum(entropy)" {
+			return "cks e_hi e_lo", gotr.U64, true
+		}
+		return "", gotr.Untyped, false
 	}
-	return s
+	return t
 }
 
-func balanced(s string) bool {
-	d := 0
-	for _, c := range s {
-		switch c {
-		case '(':
-			d++
-		case ')':
-			d--
-			if d < 0 {
-				return false
+// hooks installs the lookups; words is the name of the token slice (decode) or "words" (encode).
+func (t *trans) hooks(words string) {
+	t.g.IndexHook = func(g *gotr.Tr, x *ast.IndexExpr, want gotr.Type) (string, gotr.Type, bool) {
+		if id, ok := x.X.(*ast.Ident); ok {
+			switch id.Name {
+			case "wordMap": // zero value for a missing key
+				return "idx " + atom(t.tokExpr(x.Index, words)), gotr.U64, true
+			case "bip39EnglishWordList": // a word is its index
+				s, _ := g.Expr(x.Index, gotr.U64)
+				return s, gotr.U64, true
 			}
 		}
+		return "", gotr.Untyped, false
 	}
-	return d == 0
 }
+
+func (t *trans) fail(n ast.Node, format string, a ...any) { t.g.Fail(n, format, a...) }
+
+func (t *trans) src(n ast.Node) string { return t.g.Src(n) }
+
+func atom(s string) string { return gotr.Atom(s) }
 
 // tokExpr translates a string-typed expression denoting a token of the phrase.
 func (t *trans) tokExpr(e ast.Expr, words string) string {
@@ -110,71 +115,22 @@ func (t *trans) natExpr(e ast.Expr, words string) string {
 
 // expr translates a uint64-typed expression.
 func (t *trans) expr(e ast.Expr, words string) string {
-	switch x := e.(type) {
-	case *ast.BasicLit:
-		if x.Kind == gotoken.INT {
-			return x.Value
-		}
-	case *ast.Ident:
-		return x.Name
-	case *ast.ParenExpr:
-		return t.expr(x.X, words)
-	case *ast.BinaryExpr:
-		a, b := atom(t.expr(x.X, words)), atom(t.expr(x.Y, words))
-		switch x.Op {
-		case gotoken.AND:
-			return "N.land " + a + " " + b
-		case gotoken.OR:
-			return "N.lor " + a + " " + b
-		case gotoken.SHL:
-			return "shl64 " + a + " " + b
-		case gotoken.SHR:
-			return "shr64 " + a + " " + b
-		case gotoken.SUB: // only between constants (shift amounts): no wrap-around to model
-			if _, ok := x.X.(*ast.BasicLit); ok {
-				if _, ok := x.Y.(*ast.BasicLit); ok {
-					return a + " - " + b
-				}
-			}
-		}
-	case *ast.CallExpr:
-		if types.ExprString(x) == "bip39checksum(entropy)" {
-			return "cks e_hi e_lo"
-		}
-	case *ast.IndexExpr:
-		if id, ok := x.X.(*ast.Ident); ok {
-			switch id.Name {
-			case "wordMap": // zero value for a missing key
-				return "idx " + atom(t.tokExpr(x.Index, words))
-			case "bip39EnglishWordList": // a word is its index
-				return t.expr(x.Index, words)
-			}
-		}
-	}
-	t.fail(e, "unsupported expression %s", types.ExprString(e))
-	return ""
+	t.hooks(words)
+	s, _ := t.g.Expr(e, gotr.U64)
+	return s
 }
 
 // assign translates `x = e`, `x := e`, `x op= e` on a uint64 variable into a let.
 func (t *trans) assign(s *ast.AssignStmt, words string) string {
+	t.hooks(words)
 	if len(s.Lhs) != 1 || len(s.Rhs) != 1 {
 		t.fail(s, "unsupported assignment %s", t.src(s))
 	}
-	id, ok := s.Lhs[0].(*ast.Ident)
-	if !ok {
-		t.fail(s, "unsupported assignment target %s", t.src(s))
+	ls := t.g.AssignLets(s)
+	if len(ls) != 1 {
+		t.fail(s, "unsupported assignment %s", t.src(s))
 	}
-	var rhs string
-	switch s.Tok {
-	case gotoken.ASSIGN, gotoken.DEFINE:
-		rhs = t.expr(s.Rhs[0], words)
-	case gotoken.SHR_ASSIGN, gotoken.SHL_ASSIGN, gotoken.AND_ASSIGN, gotoken.OR_ASSIGN:
-		op := map[gotoken.Token]gotoken.Token{gotoken.SHR_ASSIGN: gotoken.SHR, gotoken.SHL_ASSIGN: gotoken.SHL, gotoken.AND_ASSIGN: gotoken.AND, gotoken.OR_ASSIGN: gotoken.OR}[s.Tok]
-		rhs = t.expr(&ast.BinaryExpr{X: id, Op: op, Y: s.Rhs[0]}, words)
-	default:
-		t.fail(s, "unsupported assignment operator in %s", t.src(s))
-	}
-	return fmt.Sprintf("let %s := %s in", id.Name, rhs)
+	return ls[0]
 }
 
 var reEntropyHalf = regexp.MustCompile(`^binary\.BigEndian\.Uint64\(entropy\[(:8|8:)\]\)$`)
@@ -197,7 +153,7 @@ func (t *trans) checkLoopVars(lets []string, allowed ...string) {
 			ok = ok || a == name
 		}
 		if !ok {
-			panic(unsupported{"loop body assigns to " + name + ", which the loop template does not carry"})
+			panic(unsupported{Msg: "loop body assigns to " + name + ", which the loop template does not carry"})
 		}
 	}
 }
@@ -220,6 +176,7 @@ func (t *trans) encode(fd *ast.FuncDecl) (loop, def string) {
 				r := types.ExprString(s.Rhs[0])
 				if m := reEntropyHalf.FindStringSubmatch(r); m != nil && s.Tok == gotoken.DEFINE {
 					lets = append(lets, fmt.Sprintf("let %s := %s in", t.src(s.Lhs[0]), half(m[1])))
+					t.g.Env[t.src(s.Lhs[0])] = gotr.U64
 					continue
 				}
 				if m := reMake.FindStringSubmatch(r); m != nil && t.src(s.Lhs[0]) == "words" {
@@ -274,7 +231,7 @@ func (t *trans) encode(fd *ast.FuncDecl) (loop, def string) {
 		}
 	}
 	if !returned {
-		panic(unsupported{"encodeBIP39Phrase: no return"})
+		panic(unsupported{Msg: "encodeBIP39Phrase: no return"})
 	}
 	def = "Definition encode (e_hi e_lo : N) : list N :=\n  " + strings.Join(lets, "\n  ") + fmt.Sprintf("\n  enc_loop (%s - 1) hi lo words.", k)
 	return
@@ -307,6 +264,7 @@ func (t *trans) decode(fd *ast.FuncDecl) (loop, def string) {
 				}
 				for _, n := range vs.Names {
 					lines = append(lines, fmt.Sprintf("let %s := 0 in", n.Name))
+					t.g.Env[n.Name] = gotr.U64
 				}
 			}
 		case *ast.IfStmt:
@@ -388,7 +346,7 @@ func (t *trans) decode(fd *ast.FuncDecl) (loop, def string) {
 		}
 	}
 	if !returned || loop == "" || words == "" {
-		panic(unsupported{"decodeBIP39Phrase: shape not recognised"})
+		panic(unsupported{Msg: "decodeBIP39Phrase: shape not recognised"})
 	}
 	def = fmt.Sprintf("Definition decode_res (%s : list token) : dres :=\n  ", words) + strings.Join(lines, "\n  ")
 	return
@@ -402,10 +360,10 @@ func translateSeedGo(path string) (text string, err error) {
 			if !ok {
 				panic(r)
 			}
-			err = fmt.Errorf("%s", u.msg)
+			err = fmt.Errorf("%s", u.Msg)
 		}
 	}()
-	t := &trans{fset: gotoken.NewFileSet()}
+	t := newTrans(gotoken.NewFileSet())
 	f, perr := parser.ParseFile(t.fset, path, nil, 0)
 	if perr != nil {
 		return "", perr
@@ -424,30 +382,17 @@ func translateSeedGo(path string) (text string, err error) {
 	if enc == nil || dec == nil {
 		return "", fmt.Errorf("encodeBIP39Phrase / decodeBIP39Phrase not found in %s", path)
 	}
+	t.g.Env["e_hi"], t.g.Env["e_lo"] = gotr.U64, gotr.U64
 	el, ed := t.encode(enc)
+	t = newTrans(t.fset)
+	t.g.Env["e_hi"], t.g.Env["e_lo"] = gotr.U64, gotr.U64
 	dl, dd := t.decode(dec)
 	return strings.Join([]string{el, ed, dl, dd}, "\n\n") + "\n", nil
 }
 
 // ---- comparing with, and compiling next to, the hand-written model ----
 
-func stripCoqComments(s string) string {
-	var b strings.Builder
-	depth := 0
-	for i := 0; i < len(s); i++ {
-		switch {
-		case strings.HasPrefix(s[i:], "(*"):
-			depth++
-			i++
-		case strings.HasPrefix(s[i:], "*)") && depth > 0:
-			depth--
-			i++
-		case depth == 0:
-			b.WriteByte(s[i])
-		}
-	}
-	return strings.Join(strings.Fields(b.String()), " ")
-}
+func stripCoqComments(s string) string { return gotr.StripCoqComments(s) }
 
 const genBegin, genEnd = "(*GEN-BEGIN*)", "(*GEN-END*)"
 
@@ -470,16 +415,13 @@ func modelRegion(seedV string) (string, error) {
 // string for WriteCases (with or without the regenerated module).
 func tieModel(h *h20) string {
 	const plain = "Run.Run_C20"
-	verif := os.Getenv("VERIF_ROOT")
-	if verif == "" {
-		verif = "/verif"
-		if wd, err := os.Getwd(); err == nil { // bin/check runs the harness from the verification root
-			if _, err := os.Stat(filepath.Join(wd, "coq", "Wallet", "Seed.v")); err == nil {
-				verif = wd
-			}
-		}
-	}
+	verif := gotr.VerifRoot()
 	note := func(s string) { h.res.Notes = append(h.res.Notes, s) }
+	if err := gotr.SelfCheck(); err != nil {
+		h.res.Count("model-tie:translator-self-check-failed")
+		note("go/ast translator (gotr): " + strings.Join(strings.Fields(err.Error()), " ") + "; nothing is regenerated on this run, the model is tied by the generated cases only")
+		return plain
+	}
 	gen, err := translateSeedGo(filepath.Join(h.c.Repo, "wallet", "seed.go"))
 	if err != nil {
 		h.res.Count("model-tie:translator-unsupported")
